@@ -320,7 +320,10 @@ def run_check(mod, modname, prop, tier, seed, jobs):
                 packed[k] = pk
     else:
         ctx = multiprocessing.get_context("fork")
-        pool = ctx.Pool(nproc)
+        # one freshly forked process per shard: whatever state the code under test keeps at module or
+        # class level cannot travel from one shard to the next, so a shard is reproducible from a
+        # fresh interpreter (the parent never executes the code under test)
+        pool = ctx.Pool(nproc, maxtasksperchild=1)
         try:
             it = pool.imap_unordered(_worker, tasks, chunksize=1)
             while True:
